@@ -82,7 +82,7 @@ CHECKS["C15"] = dict(
     design="6/C15", technique="Coq proof (actor service order = linearization, by invariants over call/serve/return histories) + real-time race-detector runs checked by an extracted oracle")
 
 CHECKS["C11"] = dict(
-    text="Tree-of-lifecycles model for trees of ANY shape: close_affects_subtree_only (after any sequence of closes, propagations and completions every non-running node lies below a closed node: never up or sideways), shutdown_measure_decreases (every internal step decreases a measure bounded by 2 x nodes), quiescent_no_stopping and quiescent_implies_subtree_done (when no internal step is left, the stopped node and every descendant are done). Correspondence: trees mixing all six subscribe/clone forms and monitors to depth 4 on a real controller in virtual time; every node kind as the closed one, every step index as the closing moment, mechanisms {Close, 3x concurrent Close, context cancel, list error}: the done-set at quiescence vs the extracted done_after_close, Events() channels closed in the subtree, the rest of the tree still delivering and current.",
+    text="Tree-of-lifecycles model for trees of ANY shape: close_affects_subtree_only (after any sequence of closes, propagations and completions every non-running node lies below a closed node: never up or sideways), shutdown_measure_decreases (every internal step decreases a measure bounded by 2 x nodes), quiescent_no_stopping and quiescent_implies_subtree_done (when no internal step is left, the stopped node and every descendant are done). Correspondence: trees mixing all six subscribe/clone forms and monitors to depth 4 on a real controller in virtual time; every node kind as the closed one, every step index as the closing moment, mechanisms {Close, 3x concurrent Close, context cancel, list error}: the done-set at quiescence vs the extracted done_after_close, Events() channels closed in the subtree, the rest of the tree still delivering and current. On the goroutine-level publisher protocol (PubLts.v, which includes the parent closing its channel and the publisher's own shutdown): publisher_drains_before_shutdown, subscriber_holds_everything_at_shutdown, exit_keeps_buffer and closed_channel_still_yields (Events() is closed after any buffered events), step_is_local and send_fails_only_when_closing (sideways isolation).",
     note="Component internals are abstracted to lifecycle states here; the per-component protocol is proved in LcProto.v (C12). Fairness is needed to reach quiescence.",
     design="6/C11", technique="Coq proof (safety invariant over all action sequences, measure, quiescence theorem on trees of any shape) + shutdown-point enumeration in virtual time")
 CHECKS["C12"] = dict(
